@@ -86,7 +86,7 @@ def check_canaries(ctx, runs, ver, retries):
     ctx.traces_validated -= len(cans) - len(bad)
     ctx.evaluations -= len(cans)
     if len(bad) != len(cans):
-        raise MachineryError(f"the monitor accepted a canary: {[k for i, (k, _) in enumerate(cans) if i not in bad]}")
+        ctx.defer_machinery(f"the monitor accepted a canary: {[k for i, (k, _) in enumerate(cans) if i not in bad]}")
     ctx.extra["canaries_rejected"] = {k: bad[i] for i, (k, _) in enumerate(cans)}
 
 
